@@ -148,7 +148,7 @@ Proof.
   - assert (zlen b = zlen digits - dp) as Hzb by (unfold b; rewrite zlen_skipn; lia). lia.
 Qed.
 
-(* the exponent digits: value and first character, for every magnitude the source admits *)
+(* the exponent digits: value and first character, for every magnitude the source allows *)
 Definition expd (E : Z) : list Z := if E =? 0 then [48] else exp_loop 5 E [].
 Lemma expd_sweep : forallb (fun E => (num (expd E) =? E) && match expd E with x :: _ => is_digit x | [] => false end) (zrange 10000) = true.
 Proof. vm_compute. reflexivity. Qed.
